@@ -28,7 +28,9 @@ def parseCls (s : String) : Option Cls :=
     let pfx ← if pfx = "-" then some none
               else if pfx.startsWith "=" then some (some (nm (pfx.drop 1).toString)) else none
     let attrs ← (attrs.filter (· ≠ "")).mapM parseAttr
-    pure ⟨pfx, attrs⟩
+    let names := attrs.map (·.1)
+    -- a class body is a dict: distinct names; `d` is the delegate reference attribute
+    if names.eraseDups.length ≠ names.length ∨ names.contains (nm "d") then none else pure ⟨pfx, attrs⟩
   | _ => none
 
 def parseValidator (s : String) : Option (Nat → Val → Except Exc Val) :=
